@@ -74,6 +74,9 @@ type Op struct {
 	// NilHeader: the caller's request has a nil Header map (a request built as a struct literal and handed to
 	// RoundTrip directly; http.Client would allocate it). Only with an empty Hdr: "no header fields".
 	NilHeader bool `json:"nil_header,omitempty"`
+	// RawKey: the caller's Header map holds a field under a key that is not in canonical form
+	// (req.Header["x-trace-raw"] = …, direct map assignment): the map is the caller's, keys included
+	RawKey bool `json:"raw_key,omitempty"`
 }
 
 // opURL: the url.URL value the caller's request carries
